@@ -3,6 +3,7 @@ package c05
 import (
 	"encoding/binary"
 	"math"
+	"sort"
 
 	"pgregory.net/rapid"
 
@@ -46,6 +47,7 @@ func genOut(t *rapid.T) Out {
 	}
 	if o.Hls {
 		o.HlsFragMs = rapid.SampledFrom([]int{100, 100, 1000, 3000}).Draw(t, "hlsFragMs")
+		o.HlsSession = rapid.Bool().Draw(t, "hlsSession")
 	}
 	o.Gop = rapid.SampledFrom([]int{0, 0, 1, 2}).Draw(t, "gop")
 	o.GopMax = rapid.SampledFrom([]int{0, 0, 1, 3}).Draw(t, "gopMax")
@@ -555,9 +557,62 @@ func genRtpEdge(t *rapid.T) Msg {
 	}
 }
 
+// genManyNals: one payload made of very many tiny units - the work lal does for it must stay proportional to its
+// size (every unit becomes a start code / an RTP packet / a loop iteration somewhere).
+func genManyNals(t *rapid.T) Msg {
+	max := 12000
+	if pbt.Thorough() {
+		max = 100000
+	}
+	n := rapid.IntRange(200, max).Draw(t, "manyCount")
+	if rapid.Bool().Draw(t, "manySmall") {
+		n = rapid.IntRange(200, 2000).Draw(t, "manyCountSmall")
+	}
+	hdr := videoHeader(t)
+	hevc := hdr[0]&0x0f == 12 || hdr[0]&0x80 != 0
+	var unit []byte
+	switch rapid.IntRange(0, 5).Draw(t, "manyUnit") {
+	case 0:
+		unit = []byte{0, 0, 0, 0} // zero-length units
+	case 1:
+		unit = []byte{0, 0, 0, 1, 0x41}
+		if hevc {
+			unit = []byte{0, 0, 0, 2, 0x02, 0x01}
+		}
+	case 2:
+		unit = []byte{0, 0, 0, 1, 0x68} // parameter sets over and over (the TS remuxer rebuilds its cache on each)
+		if hevc {
+			unit = []byte{0, 0, 0, 2, 0x44, 0x01}
+		}
+	case 3:
+		unit = []byte{0, 0, 0, 2, 0x67, 0x64, 0, 0, 0, 1, 0x68}
+		if hevc {
+			unit = []byte{0, 0, 0, 2, 0x40, 0x01, 0, 0, 0, 2, 0x42, 0x01, 0, 0, 0, 2, 0x44, 0x01}
+		}
+	case 4:
+		unit = []byte{0, 0, 0, 1, 0x65}
+		if hevc {
+			unit = []byte{0, 0, 0, 2, 0x26, 0x01}
+		}
+	default:
+		unit = []byte{0, 0, 0, 1, 0x09, 0, 0, 0, 1, 0x06} // delimiters and SEI
+		if hevc {
+			unit = []byte{0, 0, 0, 2, 0x46, 0x01, 0, 0, 0, 2, 0x4e, 0x01}
+		}
+	}
+	raw := append([]byte(nil), hdr...)
+	// the payload is  header + n x unit ; it is kept out of the case as (unit, n): Raw holds header + one unit,
+	// the repetition is rendered by Payload through Rep
+	raw = append(raw, unit...)
+	return Msg{Type: gen.TypeVideo, Class: "many-nals", Raw: raw, RepFrom: len(hdr), Rep: n}
+}
+
 func genHostile(t *rapid.T, cd gen.Codecs, skel []gen.Item) Msg {
 	if rapid.IntRange(0, 11).Draw(t, "rtpEdge") == 0 {
 		return genRtpEdge(t)
+	}
+	if rapid.IntRange(0, 24).Draw(t, "manyNals") == 0 {
+		return genManyNals(t)
 	}
 	switch rapid.IntRange(0, 39).Draw(t, "hostileClass") {
 	case 0, 1, 2, 3, 4, 5, 6, 7, 8, 9:
@@ -703,19 +758,43 @@ func genCase(t *rapid.T) Case {
 		kinds = append(kinds, "rtmp")
 	}
 	if c.Out.Flv {
-		kinds = append(kinds, "flv")
+		kinds = append(kinds, "flv", "wsflv")
 	}
 	if c.Out.Ts {
-		kinds = append(kinds, "ts")
+		kinds = append(kinds, "ts", "wsts")
 	}
 	if c.Out.Rtsp {
 		kinds = append(kinds, "rtsp", "rtsp")
+	}
+	if c.Out.Hls {
+		kinds = append(kinds, "hls", "hls")
 	}
 	if len(kinds) > 0 {
 		n := rapid.IntRange(0, 4).Draw(t, "nsubs")
 		for i := 0; i < n; i++ {
 			c.Subs = append(c.Subs, Sub{Kind: rapid.SampledFrom(kinds).Draw(t, "subKind"), JoinAt: rapid.IntRange(-1, len(c.Msgs)).Draw(t, "joinAt")})
 		}
+	}
+	// ---- probes of the independent stream -------------------------------------------------
+	switch rapid.IntRange(0, 9).Draw(t, "probeMode") {
+	case 0, 1, 2:
+		// dense: after every hostile message
+		for k, m := range c.Msgs {
+			if isHostile(m) {
+				c.Probes = append(c.Probes, k)
+			}
+		}
+	case 3, 4, 5, 6, 7:
+		n := rapid.IntRange(1, 4).Draw(t, "nprobes")
+		seen := map[int]bool{}
+		for i := 0; i < n && len(c.Msgs) > 0; i++ {
+			k := rapid.IntRange(0, len(c.Msgs)-1).Draw(t, "probeAt")
+			if !seen[k] {
+				seen[k] = true
+				c.Probes = append(c.Probes, k)
+			}
+		}
+		sort.Ints(c.Probes)
 	}
 	return c
 }
@@ -824,6 +903,17 @@ func classify(c Case) (bool, []string) {
 		if m.Type != gen.TypeData {
 			prev = m.Ts
 		}
+	}
+	switch {
+	case len(c.Probes) == 0:
+		labels = append(labels, "probes:end-only")
+	case len(c.Probes) > 4:
+		labels = append(labels, "probes:after-every-hostile-message")
+	default:
+		labels = append(labels, "probes:1-4-mid-stream")
+	}
+	if c.Out.HlsSession {
+		labels = append(labels, "hls-sub-session-mode")
 	}
 	labels = append(labels, "video:"+c.Codecs.Video, "audio:"+c.Codecs.Audio)
 	return nt, uniq(labels)
